@@ -164,4 +164,78 @@ theorem compProp_keeps (st st' : PState) (line name : List Char) (parms : List (
   repeat' split at h
   all_goals (first | (cases h; done) | (cases h; simp))
 
+/-! ### document level: a component without DTSTART -/
+
+/-- a line after the split: (raw line, upper-cased NAME, parameters, value) -/
+abbrev PLine := List Char × List Char × List (List Char) × List Char
+
+def stepP (lib : RRuleLib) (st : PState) (p : PLine) : R PState := stepCore lib st p.1 p.2.1 p.2.2.1 p.2.2.2
+
+/-- inside an open component `kind` in which no DTSTART has been seen -/
+def OpenNoStart (kind : List Char) (st : PState) : Prop :=
+  st.invtz = true ∧ st.comptype = some kind ∧ st.founddtstart = false
+
+theorem kind_facts (kind : List Char) (hk : kind = lit "STANDARD" ∨ kind = lit "DAYLIGHT") :
+    ICal.truthy (some kind) = true ∧ (kind == lit "VTIMEZONE") = false := by
+  rcases hk with rfl | rfl <;> decide
+
+theorem other_not_special (name : List Char) (h : OtherCompProp name) :
+    (name == lit "BEGIN") = false ∧ (name == lit "END") = false ∧ name ≠ lit "DTSTART" := by
+  rcases h with rfl | rfl | rfl | rfl | rfl | rfl | rfl | rfl <;> decide
+
+theorem end_rejected (lib : RRuleLib) (kind : List Char) (hk : kind = lit "STANDARD" ∨ kind = lit "DAYLIGHT") (st : PState)
+    (h : OpenNoStart kind st) (l1 : List Char) (pm1 : List (List Char)) :
+    stepP lib st (l1, lit "END", pm1, kind) = .error .ValueError := by
+  obtain ⟨h1, h2, h3⟩ := h
+  have e1 : (lit "END" == lit "BEGIN") = false := by decide
+  have e2 := (kind_facts kind hk).2
+  simp [stepP, stepCore, h1, e1, e2, h2, closeComp, h3]
+
+theorem other_step (lib : RRuleLib) (kind : List Char) (hk : kind = lit "STANDARD" ∨ kind = lit "DAYLIGHT") (st : PState)
+    (h : OpenNoStart kind st) (p : PLine) (hp : OtherCompProp p.2.1) :
+    (∃ e, stepP lib st p = .error e) ∨ ∃ st', stepP lib st p = .ok st' ∧ OpenNoStart kind st' := by
+  obtain ⟨h1, h2, h3⟩ := h
+  obtain ⟨n1, n2, n3⟩ := other_not_special _ hp
+  have ht : ICal.truthy st.comptype = true := by rw [h2]; exact (kind_facts kind hk).1
+  have e : stepP lib st p = compProp st p.1 p.2.1 p.2.2.1 p.2.2.2 := by
+    simp [stepP, stepCore, h1, n1, n2, ht]
+  rw [e]
+  cases hc : compProp st p.1 p.2.1 p.2.2.1 p.2.2.2 with
+  | error e => exact Or.inl ⟨e, rfl⟩
+  | ok st' =>
+    obtain ⟨k1, k2, k3, _, _, _⟩ := compProp_keeps st st' _ _ _ _ n3 hc
+    exact Or.inr ⟨st', rfl, by rw [k3, h1], by rw [k2, h2], by rw [k1, h3]⟩
+
+theorem body_rejected (lib : RRuleLib) (kind : List Char) (hk : kind = lit "STANDARD" ∨ kind = lit "DAYLIGHT")
+    (l1 : List Char) (pm1 : List (List Char)) (ps : List PLine) :
+    ∀ st, OpenNoStart kind st → (∀ p ∈ ps, OtherCompProp p.2.1) →
+      ∃ e, (ps ++ [(l1, lit "END", pm1, kind)]).foldlM (stepP lib) st = .error e := by
+  induction ps with
+  | nil =>
+    intro st h _
+    refine ⟨.ValueError, ?_⟩
+    simp [List.foldlM, end_rejected lib kind hk st h l1 pm1, bind, Except.bind]
+  | cons p ps ih =>
+    intro st h hps
+    rcases other_step lib kind hk st h p (hps p (by simp)) with ⟨e, he⟩ | ⟨st', hs, h'⟩
+    · exact ⟨e, by simp [List.foldlM, he, bind, Except.bind]⟩
+    · obtain ⟨e, he⟩ := ih st' h' (fun q hq => hps q (by simp [hq]))
+      exact ⟨e, by simpa [List.foldlM, hs, bind, Except.bind] using he⟩
+
+/-- **a component with recurrence / offset / name lines but no DTSTART is rejected**, from any state inside a VTIMEZONE, whatever the
+    lines are (any number, any order, any values), at the latest at its END line -/
+theorem component_without_dtstart (lib : RRuleLib) (st : PState) (kind : List Char)
+    (hk : kind = lit "STANDARD" ∨ kind = lit "DAYLIGHT") (hin : st.invtz = true)
+    (l0 l1 : List Char) (pm0 pm1 : List (List Char)) (ps : List PLine) (hps : ∀ p ∈ ps, OtherCompProp p.2.1) :
+    ∃ e, ((l0, lit "BEGIN", pm0, kind) :: (ps ++ [(l1, lit "END", pm1, kind)])).foldlM (stepP lib) st = .error e := by
+  have hb : stepP lib st (l0, lit "BEGIN", pm0, kind) =
+      .ok { st with comptype := some kind, founddtstart := false, tzoffsetfrom := none, tzoffsetto := none, rrulelines := [],
+                    tzname := none } := by
+    rcases hk with rfl | rfl <;> simp [stepP, stepCore, hin, beginComp]
+  obtain ⟨e, he⟩ := body_rejected lib kind hk l1 pm1 ps
+    { st with comptype := some kind, founddtstart := false, tzoffsetfrom := none, tzoffsetto := none, rrulelines := [], tzname := none }
+    ⟨hin, rfl, rfl⟩ hps
+  exact ⟨e, by simpa [List.foldlM, hb, bind, Except.bind] using he⟩
+
+
 end ICalRfc
